@@ -202,7 +202,8 @@ def configs(tier):
     add(modes=("level", "level"), dw=1, attach="direct", align=2)
     if not quick:
         # three events: unaligned 3-chunk registers on a 1-bit bus (pending at 3..6), 2-bit bus
-        for modes in (("level", "rise", "fall"), ("rise", "rise", "level"), ("fall", "level", "level")):
+        for modes in (("level", "rise", "fall"), ("rise", "rise", "level"), ("fall", "level", "level"), ("rise", "level", "rise"),
+                      ("level", "fall", "level")):
             add(modes=modes, dw=1, attach="direct")
             add(modes=modes, dw=2, attach="dec")
         add(modes=("level",) * 3, dw=1, attach="connect", src_vectors="walking")
@@ -213,7 +214,8 @@ def configs(tier):
     else:
         # three events on a 1-bit bus: 3-chunk registers, pending sits unaligned at 3..6 (lean driver)
         add(modes=("level", "level", "level"), dw=1, attach="direct", src_vectors=(0, 1, 4), driver="lean")
-        add(modes=("level", "level", "level"), dw=2, attach="connect", src_vectors=(0, 2, 5), wvals=(0, 3, 1), driver="lean")
+        # (modes alternate: two sources of one mode separated by a source of another)
+        add(modes=("rise", "level", "rise"), dw=2, attach="connect", src_vectors=(0, 2, 5), wvals=(0, 3, 1), driver="lean")
     return out
 
 
